@@ -192,6 +192,13 @@ class SPDom(Domain):
             for n, v in st.u.acc:
                 if n == test.id:
                     return [(v, st)]
+        # res = btor.Sat() ... if res == btor.SAT
+        if (isinstance(test, ast.Compare) and len(test.ops) == 1 and isinstance(test.left, ast.Name)
+                and isinstance(test.comparators[0], ast.Attribute) and test.comparators[0].attr == "SAT"
+                and isinstance(test.ops[0], (ast.Eq, ast.NotEq))):
+            for n, v in st.u.acc:
+                if n == "sat:" + test.left.id:
+                    return [((v == isinstance(test.ops[0], ast.Eq)), st)]
         return super().decide(st, test, ctx)
 
     def on_call(self, st, call, ctx, want_ret=False):
@@ -316,6 +323,29 @@ class SPInterp(Interp):
 
     def stmt(self, st, s, ctx):
         dom = self.dom
+        if (isinstance(st, ast.Assign) and len(st.targets) == 1 and isinstance(st.targets[0], ast.Name)
+                and isinstance(st.value, ast.Call) and call_name(st.value) == "Sat"):
+            from sa.sai import Outs
+            outs = Outs()
+            n = "sat:" + st.targets[0].id
+            for truth, x in dom._sat(s, st.value, True):
+                acc = frozenset((a, b) for a, b in x.u.acc if a != n) | {(n, truth)}
+                outs.add(FALL, x._replace(u=x.u._replace(acc=acc)))
+            return outs
+        # ok = (btor.Sat() == btor.SAT)
+        if (isinstance(st, ast.Assign) and len(st.targets) == 1 and isinstance(st.targets[0], ast.Name)
+                and isinstance(st.value, ast.Compare) and len(st.value.ops) == 1
+                and isinstance(st.value.ops[0], (ast.Eq, ast.NotEq))
+                and isinstance(st.value.left, ast.Call) and call_name(st.value.left) == "Sat"
+                and isinstance(st.value.comparators[0], ast.Attribute) and st.value.comparators[0].attr == "SAT"):
+            from sa.sai import Outs
+            outs = Outs()
+            n = st.targets[0].id
+            eq = isinstance(st.value.ops[0], ast.Eq)
+            for truth, x in dom._sat(s, st.value.left, True):
+                acc = frozenset((a, b) for a, b in x.u.acc if a != n) | {(n, truth == eq)}
+                outs.add(FALL, x._replace(u=x.u._replace(acc=acc)))
+            return outs
         if (isinstance(st, ast.AugAssign) and isinstance(st.op, ast.BitOr) and isinstance(st.target, ast.Name)
                 and isinstance(st.value, ast.Call) and call_name(st.value) in dom.summaries):
             from sa.sai import Outs
